@@ -215,6 +215,10 @@ def _run(pid, mod, t, s, a, scratch, t0, cf):
     env["VERIF_TIER"] = t
     env["VERIF_SEED"] = str(s)
     env["VERIF_SCRATCH"] = scratch     # directory shared by all workers of this run (removed afterwards)
+    # hostile HOME: a scratch home directory in which the harness plants same-named decoys of its key files
+    home = os.path.join(scratch, "home")
+    os.makedirs(home, exist_ok=True)
+    env.update(HOME=home, XDG_CONFIG_HOME=os.path.join(home, ".config"), VERIF_HOSTILE_HOME=home)
     if a.replay:
         out = os.path.join(scratch, "replay.json")
         rc, err = _run_worker([pid, "replay", a.replay, out], env, 3600, scratch)
